@@ -163,6 +163,23 @@ CLAIMS = {
         note=TRUST,
         technique="static analysis: symmetry/normal-form argument on return expressions, sibling comparison, recursion-shape check",
         ref="DESIGN.md section 4 C15"),
+    "C16": dict(
+        text="Static analysis, partial: ownership typestate (E-OWN) of the storage block of Array, String, StringStream "
+             "and HashTable on the CFG of every member that frees or retargets it -- the block owned on entry is released, "
+             "saved, handed over or known null before the field is overwritten, released in the destructor, never "
+             "released twice, never lost on an exit, and a block adopted from another owner is given up by that owner "
+             "on every path (move constructors/assignments); callee summaries to a fixpoint. Borrowed/aliasing "
+             "pointers and element references are not used after a call that may release the storage (all headers, "
+             "interprocedural may-release summaries). Raw new/delete only at the Memory seam and Allocate/Deallocate "
+             "only in owning classes; destructor/move/copy/reset of the three tagged unions have an arm for every "
+             "owning kind and TagBit::Clear disposes before it deallocates; containers dispose elements before the "
+             "block; a member destroyed in place is not used before re-initialisation; Make*Tag only on fresh "
+             "records; Value's discriminant is never overwritten over an owning payload. Not decided: net-zero "
+             "allocation over all operation histories.",
+        note=TRUST + "Elements are assumed relocatable by byte copy; by-reference parameters alias the receiver only "
+             "where the alias rule says so (element pointers/references).",
+        technique="static analysis: ownership typestate dataflow with callee summaries, borrow/alias dataflow, who-may-call and exhaustiveness checks",
+        ref="DESIGN.md section 4 C16"),
     "C18": dict(
         text="Static analysis, partial: in Value::GroupBy the grouping key is consulted for every member of every "
              "element (use of the key parameters inside the element/member loops); on a removed member the walk "
